@@ -593,7 +593,17 @@ func runC11(c C11Case) vrt.Verdict {
 		return vrt.OK(nonTrivial, labels...)
 	}
 	if callErr != nil {
-		return fail("", "Value failed although every variable holds an acceptable text: %v", callErr)
+		// A noise variable may coincide with the (wrong) name a known naming
+		// defect makes the source look up; classify such a failure with it.
+		key := ""
+		if len(c.Noise) > 0 {
+			for _, l := range leaves {
+				if k := riskKey(l); !l.Skipped && k != "" {
+					key = k
+				}
+			}
+		}
+		return fail(key, "Value failed although every variable holds an acceptable text: %v", callErr)
 	}
 	if !got.IsValid() || got.Type() != PT {
 		return fail("", "Value returned type %v, want the requested type %s", got, PT)
